@@ -834,7 +834,7 @@ func (c *c17Run) genIdentical() {
 	c.deliverOLVM("replay-identical", "identical bytes", c.ek[ki], tx.From, tx.To, tx.Nonce, tx.Amount.Value.BigInt(), stx.Fee.Price.Value.BigInt(), stx.Fee.Gas, tx.Data, sign, field, stx.Memo, tx.TxType, callee, bz)
 }
 
-// directed scenarios: the refuted-theorem witnesses and the corner cases, replayed on every run
+// directed scenarios: the histories of the repaired findings (corpus) and the corner cases, replayed on every run
 func (c *c17Run) directed() {
 	e0, e1, e2 := c.ek[0], c.ek[1], c.ek[2]
 	zero := big.NewInt(0)
@@ -847,7 +847,7 @@ func (c *c17Run) directed() {
 	}
 	c.beginBlock()
 	f0 := c.fresh[0]
-	// witness C17_nonce_exact_refuted / C17_no_replay_refuted: nonce = account nonce + 2, three encodings
+	// corpus C17.nonce_gap (fixed 579eea0): nonce = account nonce + 2 in four encodings; CheckTx accepts, execution must reject
 	dl("directed-nonce-gap", e1, &f0, 2, big.NewInt(5), 21000, nil, 0)
 	dl("directed-nonce-gap-replay", e1, &f0, 2, big.NewInt(5), 21000, nil, 1)
 	dl("directed-nonce-gap-replay", e1, &f0, 2, big.NewInt(5), 21000, nil, 2)
@@ -889,7 +889,7 @@ func (c *c17Run) directed() {
 	if a := byKind("stop"); a != nil {
 		dl("directed-payable", e0, a, c.stNonce(e0.Addr), big.NewInt(9), 100000, nil, 0)
 	}
-	// witness C17_conservation_refuted: SELFDESTRUCT of a funded contract
+	// corpus C17.selfdestruct_funded (fixed 8b9b1c9): SELFDESTRUCT of a funded contract must conserve OLT
 	if a := byKind("suicide"); a != nil {
 		dl("directed-selfdestruct-funded", e1, a, c.stNonce(e1.Addr), big.NewInt(11), 100000, nil, 0)
 		dl("directed-call-dead", e0, a, c.stNonce(e0.Addr), big.NewInt(3), 100000, nil, 0)
